@@ -2529,3 +2529,78 @@ func runC11ProcReload(c *fw.Case) {
 	}
 	c.Outcome("ok")
 }
+
+// ---- C02 at process level: `desync chunk` and `desync make -n N` against the independent chunker ----
+
+func runC02Proc(c *fw.Case) {
+	c.Probe("process-level-case (real desync binary)")
+	triples := [][3]int{{1, 4, 16}, {1, 1, 4}, {2, 2, 2}, {1, 2, 8}, {4, 16, 64}, {1, 16, 16}}
+	t := triples[c.Draw(len(triples), "sizes")]
+	sz := sizes{uint64(t[0]) * 1024, uint64(t[1]) * 1024, uint64(t[2]) * 1024}
+	blob := genBlob(c, sz, c.Range(1, 24, "maxchunks")*int(sz.max))
+	if c.Chance(1, 6, "zerotail") {
+		// a long zero run reaching almost to the end plus a short tail: workers on different grids never line up
+		blob = append(append(blob, make([]byte, c.Range(2, 12, "zeros")*int(sz.max)+c.Draw(int(sz.max), "zeros.extra"))...), []byte("tail of the file")...)
+	}
+	sha256mode := c.Chance(1, 4, "sha256")
+	var pre []string
+	if sha256mode {
+		pre = []string{"--digest", "sha256"}
+	}
+	want := ref.Chunks(blob, sz.min, sz.avg, sz.max, sha256mode)
+	file := filepath.Join(c.Dir(), "blob")
+	os.WriteFile(file, blob, 0644)
+	m := fmt.Sprintf("%d:%d:%d", t[0], t[1], t[2])
+	c.Class(fmt.Sprintf("cli chunk/make sizes=%s len<=%dK sha256=%v", m, (len(blob)+65535)/65536*64, sha256mode))
+	c.NonTrivial()
+	// desync chunk prints start, length and id of every chunk
+	exit, out, stderr, err := runDesync(append(append([]string{}, pre...), "chunk", "-m", m, file)...)
+	if err != nil {
+		c.HarnessError("%v", err)
+		return
+	}
+	c.SubEval(1)
+	if exit != 0 {
+		c.Violate("index-mismatch", "desync chunk/failed", "exit %d: %s", exit, tailBytes(stderr, 200))
+		return
+	}
+	var wantOut strings.Builder
+	for _, ch := range want {
+		fmt.Fprintf(&wantOut, "%d\t%d\t%x\n", ch.Start, ch.Size, ch.ID)
+	}
+	if string(out) != wantOut.String() {
+		c.Violate("index-mismatch", "desync chunk/differs", "`desync chunk -m %s` on %d bytes prints %d lines, the rule gives %d chunks; output differs", m, len(blob), strings.Count(string(out), "\n"), len(want))
+		return
+	}
+	// desync make with several worker counts writes the same table
+	for _, n := range []int{1, c.Range(2, 5, "n.a"), c.Range(6, 16, "n.b")} {
+		idxFile := filepath.Join(c.Dir(), fmt.Sprintf("blob.n%d.caibx", n))
+		exit, _, stderr, err := runDesync(append(append([]string{}, pre...), "make", "-n", strconv.Itoa(n), "-m", m, idxFile, file)...)
+		if err != nil {
+			c.HarnessError("%v", err)
+			return
+		}
+		c.SubEval(1)
+		if exit != 0 {
+			c.Violate("index-mismatch", "desync make/failed", "n=%d: exit %d: %s", n, exit, tailBytes(stderr, 200))
+			return
+		}
+		b, _ := os.ReadFile(idxFile)
+		ri, perr := ref.ParseCaibx(b)
+		if perr != nil {
+			c.Violate("index-mismatch", "desync make/unreadable", "n=%d: the independent parser rejects the index: %v", n, perr)
+			return
+		}
+		if ri.Min != sz.min || ri.Avg != sz.avg || ri.Max != sz.max || len(ri.Chunks) != len(want) {
+			c.Violate("index-mismatch", "desync make/differs", "n=%d sizes=%s len=%d: index has %d chunks (sizes %d:%d:%d), the rule gives %d", n, m, len(blob), len(ri.Chunks), ri.Min, ri.Avg, ri.Max, len(want))
+			return
+		}
+		for i := range want {
+			if ri.Chunks[i] != want[i] {
+				c.Violate("index-mismatch", "desync make/differs", "n=%d sizes=%s len=%d: chunk %d is [%d+%d], the rule gives [%d+%d]", n, m, len(blob), i, ri.Chunks[i].Start, ri.Chunks[i].Size, want[i].Start, want[i].Size)
+				return
+			}
+		}
+	}
+	c.Outcome("ok")
+}
